@@ -638,7 +638,7 @@ def work_sep(task, res: Result):
             res.count("swap-exact-checked")
             if not ok:
                 res.violation(f"toqito.perms.swap on {dA}x{dB} differs from the exact exchange of the parties", {"function": "swap", "args": {"dA": dA, "dB": dB, "rho": rho}, "impl": sw, "model": "swapAB", "theorem": "swapAB_exec_eq_spec"})
-        variants = [("local-unitary", rot, dA, dB), ("swap", sw, dB, dA)]
+        variants = [v for v in (("local-unitary", rot, dA, dB), ("swap", sw, dB, dA)) if v[0] in task.get("variants", ["local-unitary", "swap"])]
         for vname, mat, a_, b_ in variants:
             inst2 = dict(inst, rho=mat, dA=a_, dB=b_, variant=vname, terms=None)
             out2, branch2, exc2 = observed_call("is_separable", np.array(mat, copy=True), [a_, b_])
@@ -753,11 +753,6 @@ def install_matchers(ctx):
     ctx.matchers["c15-is-separable-late-stage"] = lambda info: (
         info.get("function") == "is_separable" and info.get("separable_by_construction") is True
         and ((info.get("impl") is False and info.get("branch") == "symext-final-false") or (info.get("branch") == "breuer-hall" and exc_is(info, "TypeError"))))
-    ctx.matchers["c15-is-separable-2xn-eig-tuple"] = lambda info: (
-        info.get("function") == "is_separable" and info.get("branch") == "2xn-lemma1" and exc_is(info, "ValueError") and min(info.get("dA", 0), info.get("dB", 0)) == 2)
-    ctx.matchers["c15-ball-2d-vector"] = lambda info: (
-        info.get("function") == "in_separable_ball" and info.get("args", {}).get("form") == "eig" and info.get("args", {}).get("ndim") == 2 and exc_is(info, "ValueError"))
-
 
 # ------------------------------------------------------------------------------------------------
 # run
@@ -777,6 +772,24 @@ def corpus(rng):
         out.append({"family": "sepmix", "dA": d, "dB": d, "rho": herm(rho).real.astype(float), "sep": True, "terms": terms, "k": k, "cplx": False, "mix_id": None, "scale": 1.0})
     for (dA, dB) in ((2, 4), (3, 3), (4, 2)):  # maximally mixed
         out.append(gen_sepmix(rng, dA, dB, 1, False, mix_id=(1, 1)))
+    # rank-4 states on 3x3 (determinant criterion), pure product state (rank-one perturbation test)
+    out.append(gen_sepmix(rng, 3, 3, 4, False))
+    out.append(gen_sepmix(rng, 3, 3, 4, True))
+    out.append(gen_sepmix(rng, 3, 3, 1, True))
+    out.append(gen_sepmix(rng, 4, 4, 1, False))
+    return out
+
+
+def corpus_ppt_entangled():
+    """PPT entangled states (no separability oracle: only invariance of the verdict is demanded) that exercise the
+    realignment-type criteria"""
+    from toqito.states import horodecki, tile
+    rho = np.identity(9)
+    for i in range(5):
+        rho = rho - tile(i) @ tile(i).conj().T
+    out = [{"family": "bound-entangled", "dA": 3, "dB": 3, "rho": herm(rho / 4).real.astype(float), "sep": None, "terms": None, "cplx": False, "meta": {"name": "tiles"}}]
+    out.append({"family": "bound-entangled", "dA": 3, "dB": 3, "rho": herm(horodecki(0.5, [3, 3])).real.astype(float), "sep": None, "terms": None, "cplx": False, "meta": {"name": "horodecki(1/2)"}})
+    out.append({"family": "bound-entangled", "dA": 2, "dB": 4, "rho": herm(horodecki(0.5, [2, 4])).real.astype(float), "sep": None, "terms": None, "cplx": False, "meta": {"name": "horodecki(1/2) 2x4"}})
     return out
 
 
@@ -809,11 +822,11 @@ def run(ctx, model_ok=True):
             T("pt_tie", inst=inst)
 
     # ---- (ii) is_separable
-    sep_insts = corpus(rng)
+    sep_insts = corpus(rng) + corpus_ppt_entangled()
     n_small = 40 if quick else 400   # dA*dB <= 6
     n_mid = 24 if quick else 240     # unequal dims with dA*dB > 6
-    n_33 = 22 if quick else 200      # 3x3 (SDP stage reachable: slow)
-    n_44 = 8 if quick else 60
+    n_33 = 12 if quick else 200      # 3x3 (SDP stage reachable: slow)
+    n_44 = 6 if quick else 60
     plan = ([[(2, 2), (2, 3), (3, 2)][i % 3] for i in range(n_small)] + [[(2, 4), (4, 2), (3, 4), (4, 3)][i % 4] for i in range(n_mid)]
             + [(3, 3)] * n_33 + [(4, 4)] * n_44)
     for i, (dA, dB) in enumerate(plan):
@@ -835,14 +848,14 @@ def run(ctx, model_ok=True):
             forms.append("none")
         kw = {}
         heavy = (dA, dB) in ((3, 3), (4, 4))
-        if (j % 2 == 0 and not heavy) or (heavy and j % 4 == 0):
+        if (j % 2 == 0 and not heavy) or (heavy and j % (6 if quick else 3) == 0) or inst["family"] == "bound-entangled":
             cplx = bool(inst.get("cplx"))
             U = qgen.cayley_unitary(rng, dA, cplx)
             V = qgen.cayley_unitary(rng, dB, cplx)
             if not cplx:
                 U, V = np.real(U), np.real(V)
-            kw = {"U": U, "V": V}
-        T("sep", inst=inst, forms=forms, **kw)
+            kw = {"U": U, "V": V, "variants": ["local-unitary", "swap"] if not (heavy and quick) else [["local-unitary"], ["swap"]][j % 2]}
+        T("sep", inst=inst, forms=forms if not heavy else ["list"], **kw)
 
     # ---- (iii) in_separable_ball
     n_ball = 80 if quick else 800
@@ -882,7 +895,7 @@ def run(ctx, model_ok=True):
         forms = ["list", "int", "ndarray"] + (["none"] if dA == dB else [])
         calls = [(1, forms[int(rng.integers(len(forms)))], True)]
         sdp = dA * dB > 6
-        if not sdp or (n_sdp < (8 if quick else 60)) or (not sepflag):
+        if not sdp or (n_sdp < (5 if quick else 60)) or (not sepflag):
             calls.append((2, forms[int(rng.integers(len(forms)))], True))
             n_sdp += int(sdp)
         if (dA, dB) == (2, 2):
